@@ -1144,6 +1144,10 @@ class Columns(Widget, WidgetContainerMixin, WidgetContainerListContentsMixin):
                 )
                 return False
 
+            if len(w_size) == 1 and row >= w.rows(w_size, focus):
+                # below the last row of a flow widget that is shorter than its neighbours: the pointer is not on it
+                return False
+
             return w.mouse_event(w_size, event, button, col - x, row, focus)
         return False
 
